@@ -1,3 +1,6 @@
+#[cfg(stylua_verif)]
+use stylua_verif_seams::std;
+
 use crate::opt::Opt;
 use anyhow::{Context, Result};
 use log::*;
